@@ -595,7 +595,8 @@ class SetAlg:
             return f_or(*[self.cond(x) for x in c[1:]])
         if h == "in":
             return self.member(c[1], c[2])
-        if h == "isinstance" and isinstance(c[2], tuple) and len(c[2]) > 1 and all(isinstance(k, str) for k in c[2]):
+        if h == "isinstance" and isinstance(c[2], tuple) and len(c[2]) > 1 and all(isinstance(k, str) for k in c[2]) and c[2][0] not in (
+                "var", "attr", "index", "call", "ref", "meth", "const"):
             # isinstance(x, (A, B)) = isinstance(x, A) or isinstance(x, B)
             return f_or(*[self.cond(("isinstance", c[1], (k,))) for k in sorted(c[2])])
         if h in ("eq", "ne", "lt", "le") and len(c) == 3:
